@@ -129,11 +129,7 @@ def value_model(tier):
         vals.append(["int", v])
     for v in int_boundaries():
         vals.append(["int", v])
-    if thorough:
-        # every INTEGER with three content octets as well
-        for v in range(-(1 << 23), 1 << 23):
-            if not -32768 <= v <= 32767:
-                vals.append(["int", v])
+    # (thorough: every INTEGER with three content octets as well - generated as compact spans, see gen_cases)
     # unsigned application types: every value of 0..65535 (1..3 content octets), then boundaries
     for kind in UKINDS:
         step = 1 if (thorough or kind == "counter32") else 7
@@ -232,9 +228,13 @@ def gen_cases(tier):
     per = 40
     for op in ("get_many", "getbulk"):
         for i in range(0, len(vals), per):
-            if op == "getbulk" and len(vals) > 2000000 and vals[i][0] == "int" and abs(vals[i][1]) > 40000 and (i // per) % 16:
-                continue  # the 3-octet INTEGER block goes through get_many; getbulk sees every 16th reply of it
             yield {"driver": "split", "cfg": v2c.describe(), "op": op, "vals": vals[i : i + per], "names": "seq" if (i // per) % 2 else "arcs"}
+    if thorough:
+        # every INTEGER with three content octets: spans of 1000 values, expanded by the worker into replies of 40
+        for start in range(-(1 << 23), 1 << 23, 1000):
+            if -32768 <= start and start + 1000 <= 32768:
+                continue
+            yield {"driver": "split", "cfg": v2c.describe(), "op": "get_many" if (start // 1000) % 16 else "getbulk", "int_span": [start, 1000], "names": "seq" if (start // 1000) % 2 else "arcs"}
     # (b) boundary values: single-varbind get / getnext, positions first/middle/last of 3, long-form lengths
     for d in bnd:
         yield {"driver": "split", "cfg": v2c.describe(), "op": "get", "vals": [d], "names": "arcs"}
@@ -500,6 +500,23 @@ def work(chunk):
                     case,
                 )
             continue
+        if "int_span" in case:
+            a, cnt = case["int_span"]
+            for b in range(a, a + cnt, 40):
+                sub = dict(case)
+                del sub["int_span"]
+                sub["vals"] = [["int", v] for v in range(b, min(b + 40, a + cnt)) if not -32768 <= v <= 32767]
+                if sub["vals"]:
+                    judge_reply(sub, worlds, res)
+            continue
+        judge_reply(case, worlds, res)
+    for w in worlds.values():
+        w.close()
+    return res
+
+
+def judge_reply(case, worlds, res):
+    for _once in (0,):
         got, err, built, n = run_case(case, worlds)
         res.count("api_calls", n)
         res.count("replies")
@@ -527,9 +544,6 @@ def work(chunk):
                 )
         if len(res["samples"]) < 2 and len(case["vals"]) > 3:
             res.sample({"op": case["op"], "cfg": Cfg.from_desc(case["cfg"]).name, "first_values": case["vals"][:4], "delivered": [values.show(g)[:40] for _, g in got[:4]]})
-    for w in worlds.values():
-        w.close()
-    return res
 
 
 def _one(case, d):
